@@ -25,7 +25,10 @@ META = {
                  'life (own completion time)': [0, 2, 4], 'max_timesteps': '0, life-1, life, life+3',
                  'collectors': ['None', "'c0'", "['c0','c1']", "('c0','c1')", '34 (invalid)'],
                  'schedules': 'all outcomes (worker task sequences, completion order) of FIFO dispatch at chunksize 1',
-                 'injected errors': ['RuntimeError', 'StopIteration', 'KeyError', 'BoomError (custom)']},
+                 'injected errors': ['RuntimeError', 'StopIteration', 'KeyError', 'BoomError (custom)',
+                                     'ModelCompleteError (single-process path)'],
+                 'long runs': 'life / max_timesteps pairs (1000,129),(1000,200),(1000,300),(257,1000),(128,128),(129,none),'
+                              '(640,639) serially and on two workers'},
     'bounds': {'quick': 'n <= 4 tasks, p in 2,3 (p >= n is equivalent to p = n); faults on n = 3',
                'thorough': 'n <= 5 tasks, p in 2,3,4,5; faults on n <= 4'},
     'assumptions': ['worker processes share nothing, so a worker\'s results depend only on its own task sequence '
@@ -47,6 +50,8 @@ class Rec(Collector):
         t = self.model.systems.timestep
         self.n += 1
         if self.boom is not None and t == 0 and self.id == 'c0':
+            if self.boom == 'ModelCompleteError':       # the library's own exception type, raised by model code
+                raise Core.ModelCompleteError()
             raise BOOM_KINDS[self.boom](f'boom a={self.a} b={self.b} t={t}')
         self.records.append((self.id, self.a, self.b, t, self.n))
         if self.id == 'c1' and t + 1 >= self.life:
@@ -58,7 +63,7 @@ class BoomError(Exception):
 
 
 BOOM_KINDS = {'RuntimeError': RuntimeError, 'StopIteration': StopIteration, 'KeyError': KeyError,
-              'BoomError': BoomError}
+              'BoomError': BoomError, 'ModelCompleteError': Core.ModelCompleteError}
 
 
 class BModel(Core.Model):
@@ -68,6 +73,11 @@ class BModel(Core.Model):
         # first timestep
         if boom is not None and boom.split(':')[0] == f'{a},{b}':
             boom = boom.split(':')[1]
+            if boom.endswith('@init'):       # the execution fails while the model is being constructed
+                kind = boom[:-5]
+                if kind == 'ModelCompleteError':
+                    raise Core.ModelCompleteError()
+                raise BOOM_KINDS[kind](f'boom in __init__ a={a} b={b}')
         else:
             boom = None
         self.systems.add_system(Rec('c0', self, a, b, life, boom))
@@ -165,7 +175,8 @@ def run_batch(case, cache=None):
     eff_limit = limit if limit is not None else 10 ** 9
     if boom is not None:
         # the failing execution is identified by its parameters (fault batches use repetitions = 1)
-        params['boom'] = f'{tasks[boom][0]},{tasks[boom][1]}:{case.get("boom_kind", "RuntimeError")}'
+        params['boom'] = (f'{tasks[boom][0]},{tasks[boom][1]}:{case.get("boom_kind", "RuntimeError")}'
+                          f'{"@init" if case.get("boom_where") == "init" else ""}')
     oc = case.get('outcome')
     if procs != 1:
         outcome = (tuple(tuple(w) for w in oc[0]), tuple(oc[1])) if oc else None
@@ -174,7 +185,7 @@ def run_batch(case, cache=None):
         try:
             got = Batching.batch_run(BModel, params, **kwargs)
             raised = None
-        except (RuntimeError, StopIteration, KeyError, BoomError) as e:
+        except (RuntimeError, StopIteration, KeyError, BoomError, Core.ModelCompleteError) as e:
             got, raised = None, e
     finally:
         if procs != 1:
@@ -182,12 +193,14 @@ def run_batch(case, cache=None):
     n = len(tasks)
     order = list(range(n)) if procs == 1 or not oc else list(oc[1])
     if boom is not None:
-        fails = [i for i, t in enumerate(tasks) if t == tasks[boom] and life > 0 and eff_limit > 0]
+        fails = [i for i, t in enumerate(tasks) if t == tasks[boom] and
+                 ((life > 0 and eff_limit > 0) or case.get('boom_where') == 'init')]
         if fails:
             if raised is None:
                 raise Violation(f'an execution raising {case.get("boom_kind", "RuntimeError")} was dropped silently '
                                 f'(batch {case})', expected='an error in the caller', observed=_short(got))
-            if 'boom' not in str(raised):
+            if 'boom' not in str(raised) and 'StopIteration' not in str(raised) and \
+                    not isinstance(raised, Core.ModelCompleteError):
                 raise Violation(f'the caller got a different error: {raised!r}')
             return ('raised', str(raised))
     if raised is not None:
@@ -224,6 +237,14 @@ def serial_cases():
                                'collectors': coll, 'procs': 1}
 
 
+def long_cases():
+    """Step limits and lifetimes far beyond small scope (block sizes, thresholds): limit below / at / above life."""
+    for life, limit in ((1000, 129), (1000, 200), (1000, 300), (257, 1000), (128, 128), (129, None), (640, 639)):
+        for procs, oc in ((1, None), (2, [[[0], [1]], [1, 0]])):
+            yield {'leg': 'long', 'grid': '2x1', 'reps': 1, 'life': life, 'limit': limit, 'collectors': 'c0',
+                   'procs': procs, 'outcome': oc}
+
+
 def batches(max_n):
     """(grid, repetitions) pairs whose task count is between 2 and max_n."""
     out = []
@@ -254,15 +275,18 @@ def fault_cases(tier):
             continue
         for boom in range(n):
             for kind in BOOM_KINDS:
-                yield {'leg': 'fault', 'grid': gname, 'reps': reps, 'life': 2, 'limit': None, 'collectors': 'c0',
-                       'procs': 1, 'boom': boom, 'boom_kind': kind}
-                for p in (2, 3):
-                    if p > n:
-                        continue
-                    for oc in sched.outcomes(n, p):
-                        yield {'leg': 'fault', 'grid': gname, 'reps': reps, 'life': 2, 'limit': None,
-                               'collectors': 'c0', 'procs': p, 'boom': boom, 'boom_kind': kind,
-                               'outcome': [list(map(list, oc[0])), list(oc[1])]}
+                for where in ('step', 'init'):
+                    yield {'leg': 'fault', 'grid': gname, 'reps': reps, 'life': 2, 'limit': None, 'collectors': 'c0',
+                           'procs': 1, 'boom': boom, 'boom_kind': kind, 'boom_where': where}
+                    if kind == 'ModelCompleteError':
+                        continue      # cannot be unpickled (its constructor takes no arguments): single-process only
+                    for p in (2, 3):
+                        if p > n:
+                            continue
+                        for oc in sched.outcomes(n, p):
+                            yield {'leg': 'fault', 'grid': gname, 'reps': reps, 'life': 2, 'limit': None,
+                                   'collectors': 'c0', 'procs': p, 'boom': boom, 'boom_kind': kind, 'boom_where': where,
+                                   'outcome': [list(map(list, oc[0])), list(oc[1])]}
 
 
 def chunk_fn(ctx, chunk):
@@ -339,7 +363,8 @@ def run(ctx):
     cases = list(serial_cases())
     sc = list(sched_cases(ctx.tier))
     fc = list(fault_cases(ctx.tier))
-    allc = cases + sc + fc
+    lc = list(long_cases())
+    allc = cases + sc + fc + lc
     # group cases that share worker executions (same batch) into the same chunk so the cache is effective
     allc.sort(key=lambda c: (c['grid'], c['reps'], c['life'], str(c['limit']), str(c['collectors']), c.get('boom', -1)))
     size = max(1, len(allc) // (ctx.procs * 2))
